@@ -356,10 +356,17 @@ func (s *Server) handleUpdateService(
 			}
 		}
 
+		// Registering a node can remove what was stored for it: a node ID that
+		// moved to another node name is a rename, which deletes the node that
+		// held the ID before together with its services and checks. What was
+		// read from the catalog above says nothing about the instances of a
+		// node that had to be registered, so they are registered again.
+		nodeChanged := changed
+
 		// Then register all services on that node - skip the unchanged ones
 		for _, svcSnap := range nodeSnap.Services {
 			changed = true
-			if storedSvcInst, ok := storedSvcInstMap[makeNodeSvcInstID(nodeSnap.Node.Node, svcSnap.Service.ID)]; ok {
+			if storedSvcInst, ok := storedSvcInstMap[makeNodeSvcInstID(nodeSnap.Node.Node, svcSnap.Service.ID)]; ok && !nodeChanged {
 				if storedSvcInst.IsSame(svcSnap.Service) {
 					changed = false
 				}
@@ -379,7 +386,7 @@ func (s *Server) handleUpdateService(
 		for _, svcSnap := range nodeSnap.Services {
 			for _, c := range svcSnap.Checks {
 				changed := true
-				if chk, ok := storedChecksMap[makeNodeCheckID(nodeSnap.Node.Node, svcSnap.Service.ID, c.CheckID)]; ok {
+				if chk, ok := storedChecksMap[makeNodeCheckID(nodeSnap.Node.Node, svcSnap.Service.ID, c.CheckID)]; ok && !nodeChanged {
 					if chk.IsSame(c) {
 						changed = false
 					}
